@@ -76,7 +76,7 @@ theorem fromBytes_toBytes (cls : Cls) (l : Bits) (off : Option Int) (hoff : off 
     · have := valid_toBytes l
       rw [validWindow_iff] at this ⊢
       simpa [offD, lenD] using this
-  rw [construct_valid_bin cls .bytes _ off _ (by intro hk; cases hk) hv]
+  rw [construct_valid_bin cls .bytes _ off _ hv]
   rcases hoff with rfl | rfl
   · rw [readSpec_toBytes]
   · have := readSpec_toBytes l
@@ -99,84 +99,103 @@ theorem readSpec_length (data : Bytes) (off len : Option Int)
 theorem window_eq_drop_take_bytes (cls : Cls) (data : Bytes) (off len : Option Int)
     (h : validWindow (8 * data.length) off len = true) :
     (construct cls .bytes data len off).map Store.bin = .ok (readSpec data off len) := by
-  exact construct_valid_bin cls .bytes data off len (by intro hk; cases hk) h
+  exact construct_valid_bin cls .bytes data off len h
 
 /-- `cls(io.BytesIO(data), offset=off, length=len)`: the `divmod(offset, 8)` / `bytelength` arithmetic selects
     a byte range that contains the window, and the final slice is the window. -/
 theorem window_eq_drop_take_bytesio (cls : Cls) (data : Bytes) (off len : Option Int)
     (h : validWindow (8 * data.length) off len = true) :
     (construct cls .bytesio data len off).map Store.bin = .ok (readSpec data off len) := by
-  exact construct_valid_bin cls .bytesio data off len (by intro hk; cases hk) h
+  exact construct_valid_bin cls .bytesio data off len h
 
-/-- `cls(filename=…, offset=off, length=len)` / `cls(open(…,'rb'), …)` for a file that is not empty
-    (both `_setfile` branches, and the copy a mutable class takes). Full statement without `hne` is false:
-    see `file_empty_witness`. -/
-theorem window_eq_drop_take_file_partial (cls : Cls) (data : Bytes) (off len : Option Int)
-    (hne : data ≠ [])
+/-- `cls(filename=…, offset=off, length=len)` / `cls(open(…,'rb'), …)`: both `_setfile` branches, every file
+    size (the empty file included), and the copy a mutable class takes of the mapped store. -/
+theorem window_eq_drop_take_file (cls : Cls) (data : Bytes) (off len : Option Int)
     (h : validWindow (8 * data.length) off len = true) :
     (construct cls .file data len off).map Store.bin = .ok (readSpec data off len) := by
-  exact construct_valid_bin cls .file data off len (fun _ => hne) h
+  exact construct_valid_bin cls .file data off len h
 
-/-- Known deviation (region `file_empty`): the only window of an empty file is valid and empty, but the code
-    raises (mmap cannot map an empty file). -/
-theorem file_empty_witness :
-    validWindow (8 * ([] : Bytes).length) none none = true ∧ readSpec [] none none = [] ∧
-    construct .bits .file [] none none = .error .value := by
-  decide
-
-/-- Whatever source it was read from, an object is well formed, so the serialisation theorems apply to it. -/
+/-- Whatever source it was read from (valid window or not), an object is well formed, so the serialisation
+    theorems apply to it. -/
 theorem construct_wf (cls : Cls) (k : Src) (data : Bytes) (off len : Option Int) (s : Store)
     (h : construct cls k data len off = .ok s) : s.WF := by
   exact construct_wf' cls k data off len s h
 
 /-! ### tofile writes exactly tobytes(), for every length and every whole-byte chunk size -/
 
-/-- Every chunk but the last is whole bytes, so the per-chunk padding never lands inside the data. -/
-theorem tofile_eq_toBytes (chunk : Nat) (s : Store) (hwf : s.WF) (h8 : 8 ∣ chunk) (hpos : 0 < chunk) :
-    tofile chunk s = .ok (toBytes s.bin) := by
-  exact tofile_eq chunk s hwf (by omega) hpos
+/-- Every chunk but the last is whole bytes, so the per-chunk padding never lands inside the data.
+    Full statement (`∀ lsb0`) is false — see `tofile_lsb0_witness`; proved on the region
+    `¬ tofile_lsb0_multichunk`, i.e. msb0 mode, or lsb0 mode with an object that fits in one chunk. -/
+theorem tofile_eq_toBytes_partial (lsb0 : Bool) (chunk : Nat) (s : Store) (hwf : s.WF) (h8 : 8 ∣ chunk)
+    (hpos : 0 < chunk) (hregion : lsb0 = false ∨ s.bin.length ≤ chunk) :
+    tofile lsb0 chunk s = .ok (toBytes s.bin) := by
+  cases lsb0 with
+  | false => exact tofile_eq chunk s hwf (by omega) hpos
+  | true =>
+    rcases hregion with h | h
+    · cases h
+    · exact tofile_lsb0_single chunk s hwf hpos h
+
+/-- Known deviation (region `tofile_lsb0_multichunk`): under `options.lsb0` `cut` hands out the chunks from the
+    other end, so a bitstring longer than the chunk is written wrongly (here: 17 bits, chunk of 8). -/
+theorem tofile_lsb0_witness :
+    let l : Bits := List.replicate 8 true ++ List.replicate 8 false ++ [true]
+    toBytes l = [255, 0, 128] ∧ tofile true 8 (Store.mem l) = .ok [1, 254, 128] ∧
+    tofile false 8 (Store.mem l) = .ok [255, 0, 128] := by
+  decide
 
 /-- GENERATED obligation: the chunk size in the working tree (re-extracted on every run) is a positive
     multiple of 8. -/
 theorem tofile_chunk_whole_bytes : 8 ∣ Gen.tofileChunk ∧ 0 < Gen.tofileChunk := by
   decide
 
-/-- Hence `tofile` as shipped writes `tobytes()`, for every length — below, at and above the chunk size. -/
-theorem tofileDefault_eq_toBytes (s : Store) (hwf : s.WF) : tofileDefault s = .ok (toBytes s.bin) :=
-  tofile_eq_toBytes _ s hwf tofile_chunk_whole_bytes.1 tofile_chunk_whole_bytes.2
+/-- Hence `tofile` as shipped writes `tobytes()`, for every length — below, at and above the chunk size
+    (same region as `tofile_eq_toBytes_partial`). -/
+theorem tofileDefault_eq_toBytes_partial (lsb0 : Bool) (s : Store) (hwf : s.WF)
+    (hregion : lsb0 = false ∨ s.bin.length ≤ Gen.tofileChunk) :
+    tofileDefault lsb0 s = .ok (toBytes s.bin) :=
+  tofile_eq_toBytes_partial lsb0 _ s hwf tofile_chunk_whole_bytes.1 tofile_chunk_whole_bytes.2 hregion
 
-/-- The pieces `cut` yields are the object's bits in order (nothing lost, nothing repeated). -/
+/-- A chunk size of zero is refused (`cut`: "bits must be >= 0"), nothing is written. -/
+theorem tofile_zero_chunk (lsb0 : Bool) (s : Store) : tofile lsb0 0 s = .error .value := by
+  simp [tofile, cut, Except.map]
+
+/-- The pieces `cut` yields are the object's bits in order (nothing lost, nothing repeated) — msb0. -/
 theorem cut_flatten (chunk : Nat) (s : Store) (hwf : s.WF) (hpos : 0 < chunk) (cs : List Store)
-    (h : cut s chunk = .ok cs) : (cs.map Store.bin).flatten = s.bin := by
+    (h : cut false s chunk = .ok cs) : (cs.map Store.bin).flatten = s.bin := by
   exact cut_flatten_eq chunk s hwf hpos cs h
 
-/-- Write with `tofile`, read back `length = len(l)` from any kind of source: the original bits
-    (for a file source the written file must not be empty — region `file_empty`). -/
-theorem roundtrip_partial (cls : Cls) (k : Src) (chunk : Nat) (l : Bits) (h8 : 8 ∣ chunk) (hpos : 0 < chunk)
-    (hne : k = .file → l ≠ []) :
-    (tofile chunk (Store.mem l) >>= fun w =>
+/-- Write with `tofile`, read back `length = len(l)` from any kind of source (bytes, BytesIO, file — the
+    empty file included), into any class: the original bits. -/
+theorem roundtrip (cls : Cls) (k : Src) (chunk : Nat) (l : Bits) (h8 : 8 ∣ chunk) (hpos : 0 < chunk) :
+    (tofile false chunk (Store.mem l) >>= fun w =>
       (construct cls k w (some (l.length : Int)) none).map Store.bin) = .ok l := by
-  exact roundtrip_eq cls k chunk l (by omega) hpos hne
+  exact roundtrip_eq cls k chunk l (by omega) hpos
 
 /-! ### Array: tobytes / tofile serialise the data (items and trailing bits); fromfile appends whole items -/
 
 theorem arrayTobytes_eq (data : Bits) : arrayTobytes data = toBytes data := by
   exact arrayTobytes_eq' data
 
-theorem arrayTofile_eq (chunk : Nat) (data : Bits) (h8 : 8 ∣ chunk) (hpos : 0 < chunk) :
-    arrayTofile chunk data = .ok (toBytes data) := by
-  exact arrayTofile_eq' chunk data (by omega) hpos
+/-- `Array.tofile` is `data.tofile`: same statement, same region as `tofile_eq_toBytes_partial`. -/
+theorem arrayTofile_eq_partial (lsb0 : Bool) (chunk : Nat) (data : Bits) (h8 : 8 ∣ chunk) (hpos : 0 < chunk)
+    (hregion : lsb0 = false ∨ data.length ≤ chunk) :
+    arrayTofile lsb0 chunk data = .ok (toBytes data) := by
+  have := tofile_eq_toBytes_partial lsb0 chunk (Store.mem data) (wf_mem data) h8 hpos
+    (by rw [bin_of_none _ rfl]; exact hregion)
+  rw [bin_of_none _ rfl] at this
+  exact this
 
-/-- `fromfile(f)` appends every whole item of the file, `fromfile(f, n)` the first `n` — nothing else.
-    (An open file goes through `_setfile`, hence `hfile`: region `file_empty`.) -/
-theorem arrayFromfile_spec_partial (data : Bits) (isz : Nat) (file : Bytes) (fk : FKind) (n : Option Int)
-    (hisz : 0 < isz) (htr : data.length % isz = 0) (hfile : fk = .handle → file ≠ [])
+/-- `fromfile(f)` appends every whole item of the file, `fromfile(f, n)` the first `n` — nothing else
+    (msb0; an open file goes through `_setfile`, a BytesIO through `frombytes`). -/
+theorem arrayFromfile_spec (data : Bits) (isz : Nat) (file : Bytes) (fk : FKind) (n : Option Int)
+    (hisz : 0 < isz) (htr : data.length % isz = 0)
     (hn : ∀ k, n = some k → 0 ≤ k ∧ k ≤ ((8 * file.length / isz : Nat) : Int)) :
     arrayFromfile data isz file fk n =
       .ok (data ++ (bytesToBits file).take ((match n with
                                               | none => 8 * file.length / isz
                                               | some k => k.toNat) * isz)) := by
-  exact arrayFromfile_eq data isz file fk n hisz htr hfile hn
+  exact arrayFromfile_eq data isz file fk n hisz htr hn
 
 /-- Trailing bits make `fromfile` refuse. -/
 theorem arrayFromfile_trailing (data : Bits) (isz : Nat) (file : Bytes) (fk : FKind) (n : Option Int)
@@ -191,17 +210,17 @@ theorem arrayFromfile_short (data : Bits) (isz : Nat) (file : Bytes) (fk : FKind
   exact arrayFromfile_short' data isz file fk k hisz htr hk
 
 /-- Array round trip: what `tofile` wrote reads back as the whole items of the zero-padded data. -/
-theorem array_roundtrip_partial (data : Bits) (isz chunk : Nat) (fk : FKind) (h8 : 8 ∣ chunk) (hpos : 0 < chunk)
-    (hisz : 0 < isz) (hne : fk = .handle → data ≠ []) :
-    (arrayTofile chunk data >>= fun w => arrayFromfile [] isz w fk none) =
+theorem array_roundtrip (data : Bits) (isz chunk : Nat) (fk : FKind) (h8 : 8 ∣ chunk) (hpos : 0 < chunk)
+    (hisz : 0 < isz) :
+    (arrayTofile false chunk data >>= fun w => arrayFromfile [] isz w fk none) =
       .ok ((padded data).take ((padded data).length / isz * isz)) := by
-  exact array_roundtrip_eq data isz chunk fk (by omega) hpos hisz hne
+  exact array_roundtrip_eq data isz chunk fk (by omega) hpos hisz
 
 /-- … which is the data itself when it is whole bytes and whole items. -/
-theorem array_roundtrip_exact_partial (data : Bits) (isz chunk : Nat) (fk : FKind) (h8 : 8 ∣ chunk) (hpos : 0 < chunk)
-    (hisz : 0 < isz) (hne : fk = .handle → data ≠ []) (hb : data.length % 8 = 0) (hi : data.length % isz = 0) :
-    (arrayTofile chunk data >>= fun w => arrayFromfile [] isz w fk none) = .ok data := by
-  rw [array_roundtrip_eq data isz chunk fk (by omega) hpos hisz hne, padded_of_dvd data hb]
+theorem array_roundtrip_exact (data : Bits) (isz chunk : Nat) (fk : FKind) (h8 : 8 ∣ chunk) (hpos : 0 < chunk)
+    (hisz : 0 < isz) (hb : data.length % 8 = 0) (hi : data.length % isz = 0) :
+    (arrayTofile false chunk data >>= fun w => arrayFromfile [] isz w fk none) = .ok data := by
+  rw [array_roundtrip_eq data isz chunk fk (by omega) hpos hisz, padded_of_dvd data hb]
   have : data.length / isz * isz = data.length := by
     have := Nat.div_add_mod data.length isz
     rw [hi, Nat.add_zero, Nat.mul_comm] at this
@@ -216,7 +235,9 @@ example : (construct .bitArray .file [165, 60, 255] (some 13) (some 3)).map Stor
     = .ok [false, false, true, false, true, false, false, true, true, true, true, false, false] := by decide
 example : (construct .bits .bytesio [165, 60, 255] none (some 9)).map Store.bin
     = .ok (readSpec [165, 60, 255] (some 9) none) := by decide
-example : tofile 8 (Store.mem [true, false, true, true, false, false, true, true, true]) = .ok [179, 128] := by decide
+example : tofile false 8 (Store.mem [true, false, true, true, false, false, true, true, true]) = .ok [179, 128] := by decide
+example : (construct .bits .file [] none none).map Store.bin = .ok [] := by decide
+example : (true = false ∨ (Store.mem [true, false, true]).bin.length ≤ 8) ∧ 8 ∣ 8 := by decide
 example : (8 ∣ 16) ∧ 0 < 16 ∧ (Store.mem [true]).WF := by
   refine ⟨by decide, by decide, ?_⟩
   intro n h; cases h
